@@ -85,6 +85,12 @@ func labelCfg(o *run.Obs, c core.Config) {
 	o.Labelf("cache=%s", c.Cache)
 	o.Labelf("marshaler=%s", c.Marshaler)
 	o.Labelf("bf=%d", c.BF)
+	if c.IsBig() {
+		o.Label("big-key-universe")
+	}
+	if c.Cmp != "" {
+		o.Labelf("cmp=%s", c.Cmp)
+	}
 }
 
 func runtimeGosched() { time.Sleep(50 * time.Microsecond) }
